@@ -129,7 +129,7 @@ def plan_for(prop, tier, seed):
             # full-size panels (every comparison touches up to 76 800 cells): a handful of scenarios only
             p.families.append(("oob-real-fullsize", True, "dev", lambda ids, rng: [sc for sc in G.f_oob_rects(ids, rng, [("gc9107", 128, 160, [(128, 160, 0, 0)]), ("st7789", 240, 320, [(240, 320, 0, 0)])], n_per_cfg=3)][::2]))
     elif prop == "C03":
-        p.mc = [(MCP, "MC_Batch_q" if q else "MC_Batch_t", 12, 3000, None)] + ([] if q else [(MCP, "MC_Batch_oob_t", 12, 3000, None)])
+        p.mc = [(MCP, "MC_Batch_q" if q else "MC_Batch_t", 12, 3000, None), ("MC_Fused", "MC_Fused", 4, 900, None)] + ([] if q else [(MCP, "MC_Batch_oob_t", 12, 3000, None)])
         p.rule = ("scenario = configuration + draw_iter streams (colour i on the i-th element); non-trivial: a stream of at "
                   "least 2 pixels that contains a left-to-right adjacency or a repeated position")
         p.nontrivial = lambda sc: any(c["name"] == "draw_iter" and len(c["px"]) >= 2 for c in sc["calls"])
@@ -140,7 +140,8 @@ def plan_for(prop, tier, seed):
             ("tiny-streams", True, "dev", lambda ids, rng: G.f_tiny_placement(ids, rng, ifaces=("rec",), sample=0.1 if q else 0.6)),
         ]
     elif prop == "C04":
-        p.mc = [("MC_Small", "MC_Small_clip16", 4, 600, None), (MCP, "MC_Placement_in_q" if q else "MC_Placement_in_t", 12, 3000, None)]
+        p.mc = [("MC_Small", "MC_Small_clip16", 4, 600, None), ("MC_Fused", "MC_Fused", 4, 900, None),
+                (MCP, "MC_Placement_in_q" if q else "MC_Placement_in_t", 12, 3000, None)]
         p.rule = ("scenario = configuration + fill_contiguous calls; non-trivial: a rectangle that is partly clipped or a colour "
                   "stream whose length differs from the area")
         p.nontrivial = lambda sc: any(c["name"] == "fill_contiguous" for c in sc["calls"])
@@ -164,6 +165,9 @@ def plan_for(prop, tier, seed):
             ("long", True, "dev", lambda ids, rng: G.f_long_streams(ids, rng, 80 if q else 1500, ifaces=("rec", "spi"))),
             ("oob-rects", True, "dev", lambda ids, rng: G.f_oob_rects(ids, rng, G.tiny_model_list(small, rng, 3 if q else 30), ifaces=("rec",))),
             ("sequences", True, "dev", lambda ids, rng: G.f_small_alphabet(ids, rng, 300 if q else 5000, ifaces=("p8", "spi", "p16", "rec"))),
+            # a call fails half-way through a word / a burst; the groups emitted by the calls after it are as well-formed as ever
+            ("framing-after-fault", True, "dev", lambda ids, rng: G.f_fault_retry(ids, rng, 300 if q else 8000, flavour="colour", ifaces=("p8", "p16", "spi"))
+                                                                  + G.f_fault_retry(ids, rng, 100 if q else 3000, flavour="oob", ifaces=("p8", "spi"))),
         ]
     elif prop == "C10":
         p.mc = [(MCP, "MC_Placement_re_q" if q else "MC_Placement_d2_t", 12, 3000, None)]
@@ -186,8 +190,10 @@ def plan_for(prop, tier, seed):
         p.nontrivial = lambda sc: len(drawing_calls(sc)) >= 1
         p.families = [
             ("overhead", True, "dev", lambda ids, rng: [G.measure_rowcap(ids)] + G.f_long_streams(ids, rng, 150 if q else 3000, ifaces=("rec", "spi")) ),
+            ("overhead-oob", True, "dev", lambda ids, rng: G.f_long_streams(ids, rng, 60 if q else 1500, ifaces=("rec", "spi"), oob=True)),
             ("overhead-sequences", True, "dev", lambda ids, rng: G.f_small_alphabet(ids, rng, 400 if q else 6000, ifaces=("spi",))),
             ("overhead-spi-grid", True, "dev", lambda ids, rng: G.f_spi_grid(ids, rng, sample=0.5 if q else 1.0, big=4 if q else 60)),
+            ("overhead-big-fills", True, "dev", lambda ids, rng: G.f_big_fills(ids, rng, n=2 if q else 12)),
             ("overhead-fills", True, "dev", lambda ids, rng: G.f_tiny_placement(ids, rng, ifaces=("rec", "spi"), sample=0.05 if q else 0.5)
                                             + G.f_oob_rects(ids, rng, G.tiny_model_list([(4, 3), (7, 5)], rng, 3 if q else 30), ifaces=("spi",))),
         ]
@@ -275,6 +281,7 @@ def plan_for(prop, tier, seed):
         p.tables = [("colours", True, "dev", lambda rng: G.t_colours(rng, full666=not q))]
         p.families = [
             ("colour-displays", True, "dev", lambda ids, rng: [sc for _ in range(1 if q else 8) for sc in G.f_colour_displays(ids, rng)]),
+            ("colour-after-fault", True, "dev", lambda ids, rng: G.f_fault_retry(ids, rng, 300 if q else 8000, flavour="colour", ifaces=("p8", "p16", "spi"), tag="colour")),
             ("colour-sequences", True, "dev", lambda ids, rng: G.f_small_alphabet(ids, rng, 400 if q else 20000, ifaces=("spi", "spi", "p8", "p16"), tag="colour")),
             ("model-init", True, "dev", lambda ids, rng: G.f_model_init(ids, rng, full=False, after=False)),
         ]
@@ -294,7 +301,11 @@ def plan_for(prop, tier, seed):
                   "a strided (quick) / complete (thorough) sweep of all 2^32 angles against the validated residue table")
         p.exhaustive = not q
         p.tables = [("orient", True, "dev", lambda rng: G.t_orient(rng, maxlen=3 if q else 5, stride=(1 << 8) if q else 1))]
-        p.families = [("reorient-drawn", True, "dev", lambda ids, rng: G.f_reorient(ids, rng, G.tiny_model_list([(3, 2), (2, 3)], rng, 4), ifaces=("rec",), sample=0.5 if q else 1.0, tag="orient-drawn"))]
+        p.families = [("reorient-drawn", True, "dev", lambda ids, rng: G.f_reorient(ids, rng, G.tiny_model_list([(3, 2), (2, 3)], rng, 4), ifaces=("rec",), sample=0.5 if q else 1.0, tag="orient-drawn")),
+                      # a model that programs its own colour order: the picture keeps its colours across orientation changes
+                      ("reorient-own-madctl", True, "dev", lambda ids, rng: G.f_reorient(ids, rng, [("tinybgr565_4x3", 4, 3, rng.sample(list(G.windows(4, 3)), 3 if q else 30))], ifaces=("rec", "spi"), tag="orient-drawn")),
+                      # an orientation change that fails on the bus and is retried
+                      ("reorient-fault-retry", True, "dev", lambda ids, rng: G.f_fault_retry(ids, rng, 300 if q else 6000, flavour="oob", ifaces=("spi", "p8", "rec"), tag="orient-drawn"))]
     elif prop == "C18":
         p.rule = ("table rows = every command type with boundary-value, seeded random and (thorough) all-65536-per-position "
                   "arguments, serialised on buffers pre-filled with A5h and 5Ah, and sent through write_command / write_raw")
@@ -319,6 +330,14 @@ def plan_for(prop, tier, seed):
                                                                                   xport=prop in ("C05", "C06", "C07", "C08"))))
         if prop in ("C01", "C03", "C08"):
             p.families.append(("nonfused-nobatch", False, "dev", lambda ids, rng: G.f_nonfused(ids, rng, n=40 if q else 1000, ifaces=("rec", "spi"), tag=tg, xport=False)))
+    # a second initialisation in the same scenario: from scratch over lines that keep their levels, or after
+    # Display::release() over the same interface / bus / pin objects (also across a failed call)
+    RI = {"C11": ("spi", "p8", "p16", "rec"), "C17": ("spi", "p8", "p16", "rec"), "C13": ("spi", "p8", "p16", "rec"),
+          "C12": ("spi", "p8", "p16"), "C07": ("p8", "p16"), "C06": ("spi",)}
+    if prop in RI:
+        ifs2 = RI[prop]
+        p.families.append(("reinit", True, "dev", lambda ids, rng: G.f_reinit(ids, rng, n=(300 if prop in ("C12", "C17") else 150) if q else 6000, ifaces=ifs2,
+                                                                              fault_rate=0.5 if prop in ("C12", "C17") else 0.25)))
     if not q:
         # thorough tier: the same programs on a release-like build (no overflow checks, no debug assertions): a
         # debug-only panic is a silently wrapped value there, and both are violations of different clauses
@@ -368,6 +387,8 @@ def execute_families(p, seed, workdir, only_build=None):
             scs = []
             for b in bases:
                 scs += gen.fault_expand(ids, rng, b, nf.get((b["id"], b["_target"]), 0))
+        for sc in scs:
+            gen.vary_builder_order(sc, rng)
         uniq = []
         for sc in scs:
             h = run.scenario_hash(sc) + ("b" if batch else "n") + profile
